@@ -14,6 +14,8 @@ Parts
   e2e     Hypothesis: generated nested dataclass models; `loader(pred, marker)` / `dumper(...)` /
           `bound(p1, loader(p2, ...))` in a fresh Retort must call the marker for exactly the data whose real
           location stack (captured by a spy provider in a second retort) the reference matches.
+  reuse   programs over SHARED pattern objects (use a prefix, extend it in several ways, use it again): every object
+          must answer like the same expression built fresh and like the reference (exhaustive small sweep + Hypothesis).
   probe   a few fixed documented examples (tutorial P example, "fact 6", changelog statement about P[X].ANY).
 """
 import itertools
@@ -511,7 +513,7 @@ def st_e2e_case(draw):
 
 
 def st_case():
-    return st.one_of(st_pure_case(), st_e2e_case())
+    return st.one_of(st_pure_case(), st_e2e_case(), st.deferred(lambda: st_reuse_case()))
 
 
 # ===================================================================================== oracle: direct checker
@@ -926,6 +928,257 @@ def _check_probe(ctx, case):
 PROBES = ["doc_fact6_direct", "doc_fact6_list", "doc_tutorial_p_example", "any_on_nonempty_pattern"]
 
 
+# ===================================================================================== pattern reuse (object history)
+# A pattern is a value: what `p.v` / `p[int]` / `p + q` match must not depend on whether the OBJECT p (or q) has been
+# used before (as predicate of a provider, operand of | & ^ ~, argument of create_loc_stack_checker) nor on what was
+# derived from it earlier.  A case is a small program over a register file of pattern objects:
+#   ["new", expr]  r[k] = fresh build         ["use", i, how]  use r[i] (builds its checker), result discarded
+#   ["ext", i, elems]  r[k] = r[i] extended    ["add", i, j]    r[k] = r[i] + r[j]
+#   ["check", i]  checker of r[i] vs reference and vs the same expression built fresh, on every stack
+USE_HOWS = ("lsc", "or", "ror", "and", "xor", "not", "loader", "bound")
+
+
+def _ident(data):
+    return data
+
+
+def _use(obj, how):
+    other = P[W0.real("B")]
+    if how == "lsc":
+        H.create_loc_stack_checker(obj)
+    elif how == "or":
+        obj | other  # noqa: B018
+    elif how == "ror":
+        H.create_loc_stack_checker(W0.real("B")) | obj  # noqa: B018
+    elif how == "and":
+        obj & other  # noqa: B018
+    elif how == "xor":
+        other ^ obj  # noqa: B018
+    elif how == "not":
+        ~obj  # noqa: B018
+    elif how == "loader":
+        loader(obj, _ident)
+    elif how == "bound":
+        bound(obj, loader(W0.real("A"), _ident))
+    else:
+        raise ValueError(how)
+
+
+def check_reuse(ctx, case):  # noqa: C901, PLR0912, PLR0915
+    ops = case["ops"]
+    if "set" in case:
+        pure, tpure, real = stack_set(case["set"])
+    else:
+        pure = [s for s in case["stacks"] if s]
+        tpure = [tup(s) for s in pure]
+        real = [W0.real_stack(s) for s in pure]
+    regs, exprs, used, origin, checked = [], [], [], [], []
+    derived_any = False
+    for n, op in enumerate(ops):
+        kind = op[0]
+        try:
+            if kind == "new":
+                H.validate(op[1])
+                if H.kind(op[1]) != "pat":
+                    raise ValueError("a register holds a pattern")
+                new = (H.build(op[1], W0), op[1], ("new", False))
+            elif kind == "use":
+                _use(regs[op[1]], op[2])
+                used[op[1]] = True
+                continue
+            elif kind == "ext":
+                i = op[1]
+                expr = ["P", exprs[i], op[2]]
+                H.validate(expr)
+                new = (H.extend(regs[i], op[2], W0), expr, ("ext", used[i] or origin[i][1]))
+            elif kind == "add":
+                i, j = op[1], op[2]
+                expr = ["add", exprs[i], exprs[j]]
+                H.validate(expr)
+                new = (regs[i] + regs[j], expr, ("add", used[i] or used[j] or origin[i][1] or origin[j][1]))
+            elif kind == "check":
+                new = None
+            else:
+                raise ValueError(op)
+        except ValueError:
+            raise
+        except Exception as e:  # noqa: BLE001  -- every program is made of documented operations
+            ctx.violation("reuse_crashed", (kind, type(e).__name__, exc_site(e)),
+                          {"kind": "reuse", "ops": ops[:n + 1], "stacks": pure[:1]}, describe(e))
+            return
+        if new is not None:
+            regs.append(new[0])
+            exprs.append(new[1])
+            origin.append(new[2])
+            used.append(False)
+            checked.append(False)
+            derived_any = derived_any or kind != "new"
+            continue
+        # ---- check register i
+        i = op[1]
+        expr = exprs[i]
+        try:
+            checker = H.create_loc_stack_checker(regs[i])
+            fresh = make_checker(expr, W0)
+        except Exception as e:  # noqa: BLE001
+            ctx.violation("reuse_crashed", ("check", type(e).__name__, exc_site(e)),
+                          {"kind": "reuse", "ops": ops[:n + 1], "stacks": pure[:1]}, describe(e))
+            return
+        ref = compile_ref(expr)
+        how, src_used = origin[i]   # src_used: a (transitive) source object had been used before the derivation
+        history = "source_used" if src_used else "recheck" if checked[i] else "extended_since" if used[i] else "clean"
+        reported = n_match = 0
+        for k, rs in enumerate(real):
+            r = ref(tpure[k])
+            try:
+                got = bool(checker.check_loc_stack(MED, rs))
+                clean = bool(fresh.check_loc_stack(MED, rs))
+            except Exception as e:  # noqa: BLE001
+                ctx.violation("check_crashed", (type(e).__name__, exc_site(e)),
+                              {"kind": "reuse", "ops": ops[:n + 1], "stacks": [pure[k]]},
+                              f"{show(expr)} on {show_stack(pure[k])}: {describe(e)}")
+                break
+            n_match += bool(r)
+            if reported >= 2:  # noqa: PLR2004
+                continue
+            if r is not None and clean != r:
+                reported += 1
+                report_mismatch(ctx, expr, pure[k], r, clean)      # not a history effect: the ordinary oracle
+            elif got != clean:
+                reported += 1
+                ctx.violation(
+                    "reuse_mismatch", (how, history),
+                    {"kind": "reuse", "ops": ops[:n + 1], "stacks": [pure[k]]},
+                    f"{show(expr)} on {show_stack(pure[k])}: the pattern object obtained by this program answers "
+                    f"{got}, the same expression built fresh answers {clean} (reference={r}); program: "
+                    + "; ".join(_show_op(o, m) for m, o in enumerate(ops[:n + 1])))
+        ctx.case(["reuse", ops[:n + 1], case.get("set") or pure], derived_any and H.max_chain(expr) >= 2,  # noqa: PLR2004
+                 sample={"program": [_show_op(o, m) for m, o in enumerate(ops[:n + 1])], "checked": show(expr),
+                         "stacks": len(real), "matching": n_match},
+                 labels=["part:reuse", f"reuse:check_{how}", f"reuse:{history}",
+                         "reuse:some_match" if n_match else "reuse:never_matches"])
+        ctx.evaluations += max(len(real) - 1, 0)
+        ctx.count("reuse_pairs", len(real))
+        used[i] = True
+        checked[i] = True
+
+
+def _show_op(op, n):
+    k = op[0]
+    if k == "new":
+        return f"new {show(op[1])}"
+    if k == "use":
+        return f"use r{op[1]} as {op[2]}"
+    if k == "ext":
+        return f"r{op[1]} extended by {show(['P', None, op[2]])[1:]}"
+    if k == "add":
+        return f"r{op[1]} + r{op[2]}"
+    return f"check r{op[1]}"
+
+
+REUSE_PREFIXES = (
+    [CH(I(Tn("A"))), CH(["a", "a"]), CH(I(ANY))]
+    + CHAINS2[::17] + [CH(I(Tn("A")), ["a", "b"]), CH(["a", "b"], I(ANY))]
+    + CHAINS3[::57]
+    + [OR(CH(I(Tn("A")), ["a", "b"]), PW(Sn("a|b"))), NOT(CH(I(Tn("A")), ["a", "a"])),
+       ["P", OR(PW(Tn("A")), PW(Tn("Abs"))), [["a", "a"]]]]
+)
+REUSE_USES = ("none", "lsc", "or", "not", "loader", "check", "ror", "and", "xor", "bound")
+REUSE_EXTS = [
+    ["elems", [["a", "a"]]], ["elems", [I(Tn("A"))]], ["elems", [TUPLES[1]]], ["elems", [GARGS[0]]],
+    ["elems", [["a", "b"], I(ANY)]], ["add_right", CH(["a", "a"])], ["add_right", CHAINS2[6]],
+    ["add_left", CH(I(Tn("A")))],
+]
+
+
+def _derive(ops, n_regs, src, ext, use_operand):
+    """Append the ops deriving a new register from register ``src``; returns (index of the new register, n_regs)."""
+    if ext[0] == "elems":
+        ops.append(["ext", src, ext[1]])
+        return n_regs, n_regs + 1
+    ops.append(["new", ext[1]])
+    other = n_regs
+    if use_operand:
+        ops.append(["use", other, "lsc"])
+    ops.append(["add", src, other] if ext[0] == "add_right" else ["add", other, src])
+    return n_regs + 1, n_regs + 2
+
+
+def enum_reuse(tier):
+    """Prefix x (how the prefix object is used first) x (how it is extended): then the extension, the prefix again,
+    a second extension of the same prefix and an extension of the extension are checked."""
+    prefixes = REUSE_PREFIXES if tier == "thorough" else REUSE_PREFIXES[::2]
+    uses = REUSE_USES if tier == "thorough" else REUSE_USES[:6]
+    for prefix in prefixes:
+        for how in uses:
+            for k, ext in enumerate(REUSE_EXTS):
+                if ext[0] == "add_left" and not H.plain1(prefix):
+                    continue
+                ops = [["new", prefix]]
+                n = 1
+                if how == "check":
+                    ops.append(["check", 0])
+                elif how != "none":
+                    ops.append(["use", 0, how])
+                r1, n = _derive(ops, n, 0, ext, use_operand=k % 2 == 1)
+                ops += [["check", r1], ["check", 0]]
+                ext2 = REUSE_EXTS[(k + 3) % 5]
+                r2, n = _derive(ops, n, 0, ext2, use_operand=False)
+                ops.append(["check", r2])
+                ext3 = REUSE_EXTS[(k + 1) % 5]
+                r3, n = _derive(ops, n, r1, ext3, use_operand=False)
+                ops += [["check", r3], ["check", r1]]
+                yield ops
+
+
+@st.composite
+def st_reuse_case(draw):  # noqa: C901
+    loc_st = st_loc()
+    stack = draw(st.lists(loc_st, min_size=2, max_size=6))
+    k = draw(st.integers(1, min(3, len(stack) - 1)))
+    head = stack[:len(stack) - k]
+    prefix = draw(st_pat_for(head, S_ATOMS, loc_st, draw(st.integers(0, 2))))
+    ops = [["new", prefix]]
+    exprs, ends = [prefix], [len(head)]
+
+    def aimed_elems(start, m):
+        locs = [stack[q] if q < len(stack) else draw(loc_st) for q in range(start, start + m)]
+        return [draw(st_elem_for(loc, S_ATOMS)) for loc in locs]
+
+    for _ in range(draw(st.integers(3, 9))):
+        what = draw(st.sampled_from(["use", "use", "ext", "ext", "ext", "add", "add_left", "check", "check"]))
+        i = draw(st.integers(0, len(exprs) - 1))
+        if what == "use":
+            ops.append(["use", i, draw(st.sampled_from(USE_HOWS))])
+        elif what == "check":
+            ops.append(["check", i])
+        elif what == "ext":
+            m = draw(st.integers(1, 2))
+            elems = aimed_elems(ends[i], m)
+            ops.append(["ext", i, elems])
+            exprs.append(["P", exprs[i], elems])
+            ends.append(ends[i] + m)
+        else:
+            left = what == "add_left" and H.plain1(exprs[i]) and ends[i] >= 2  # noqa: PLR2004
+            m = draw(st.integers(1, 2))
+            start = max(ends[i] - H.width(exprs[i]) - m, 0) if left else ends[i]
+            chain = CH(*aimed_elems(start, m))
+            ops.append(["new", chain])
+            j = len(exprs)
+            exprs.append(chain)
+            ends.append(start + m)
+            if draw(st.booleans()):
+                ops.append(["use", j, draw(st.sampled_from(USE_HOWS))])
+            ops.append(["add", j, i] if left else ["add", i, j])
+            exprs.append(["add", chain, exprs[i]] if left else ["add", exprs[i], chain])
+            ends.append(ends[i] if left else ends[i] + m)
+    for i in range(len(exprs)):       # every object is checked at the end, the prefix last
+        ops.append(["check", len(exprs) - 1 - i])
+    stacks = [stack[:e] for e in range(1, len(stack) + 1)]
+    stacks += [draw(st_mutated(stack, loc_st)) for _ in range(draw(st.integers(1, 4)))]
+    return {"kind": "reuse", "ops": ops, "stacks": stacks}
+
+
 # ===================================================================================== dispatch / exploration
 def check_case(ctx: runner.Ctx, case):
     k = case["kind"]
@@ -941,6 +1194,8 @@ def check_case(ctx: runner.Ctx, case):
         check_e2e(ctx, case)
     elif k == "probe":
         check_probe(ctx, case)
+    elif k == "reuse":
+        check_reuse(ctx, case)
     else:
         raise ValueError(k)
 
@@ -976,6 +1231,22 @@ def explore(ctx: runner.Ctx):
             break
         for sname in sets:
             check_case(ctx, {"kind": "law", "law": name, "lhs": lhs, "rhs": rhs, "set": sname})
+    # 3b. pattern reuse: programs over shared pattern objects (small exhaustive sweep)
+    n_reuse = 0
+    reuse_sets = ["R3"] if ctx.tier == "quick" else ["R3", "R4"]
+    for i, ops in enumerate(enum_reuse(ctx.tier)):
+        n_reuse += 1
+        if i % ctx.nshards != ctx.shard:
+            continue
+        if ctx.out_of_time():
+            break
+        for sname in reuse_sets:
+            check_case(ctx, {"kind": "reuse", "ops": ops, "set": sname})
+    ctx.mark_exhaustive(
+        f"pattern reuse: {n_reuse} programs = prefixes x first use of the prefix object x extension form (attribute, "
+        f"item, tuple, generic_arg, two elements, + on either side); in each the extension, the prefix again, a second "
+        f"extension of the prefix and an extension of the extension are compared with the reference and with a fresh "
+        f"build on every stack of {', '.join(reuse_sets)}")
     sizes = ", ".join(f"{s}={len(stack_set(s)[0])}" for s in sets)
     ctx.mark_exhaustive(
         f"{n_expr} enumerated expressions (atoms, P-chains of length<={4 if ctx.tier == 'thorough' else 3}, their "
@@ -987,6 +1258,7 @@ def explore(ctx: runner.Ctx):
     # 4. sampled deeper expressions / stacks, and end-to-end marking
     ctx.given(st_pure_case(), lambda case: check_case(ctx, case), ctx.budget(8000, 200000), seed_offset=1)
     ctx.given(st_e2e_case(), lambda case: check_case(ctx, case), ctx.budget(800, 20000), seed_offset=2)
+    ctx.given(st_reuse_case(), lambda case: check_case(ctx, case), ctx.budget(2400, 48000), seed_offset=3)
 
 
 RULE = ("table: one case per (enumerated expression, stack set), every (expression, stack) pair of the set is one "
@@ -994,7 +1266,9 @@ RULE = ("table: one case per (enumerated expression, stack set), every (expressi
         "stack set), non-trivial when the compared truth tables are not constant; pure: Hypothesis draws a stack "
         "(depth<=6, 25 types x 9 field ids x 6 location kinds), derives an expression aimed at it (depth<=3 nesting, "
         "chains<=5) and evaluates it on the stack and 2-8 mutated neighbours, one case per (expression, stack); "
-        "e2e: one case per (generated model world, mode, provider form, expression). Non-trivial = expression has a "
+        "e2e: one case per (generated model world, mode, provider form, expression); reuse: one case per check op "
+        "of a program over shared pattern objects (non-trivial when something was derived before and the checked "
+        "chain has length>=2). Non-trivial = expression has a "
         "chain of length>=2 or a combinator (| & ^ ~ or tuple form) AND the stack (e2e: the deepest captured stack) "
         "has depth>=2. Distinct by the full pure-data case.")
 
